@@ -1,7 +1,12 @@
 package props
 
 import (
+	"fmt"
+	"go/ast"
+	"strings"
+
 	"octoverif/core"
+	"octoverif/engine/absint"
 )
 
 func init() {
@@ -46,4 +51,74 @@ func runC01(c *core.Ctx) {
 	c.Rule("OPT3", "column pruning cuts parallel slices at corresponding positions (shared with C04)")
 	checkIsUsed(c)
 	checkPruners(c)
+	c.Rule("STAR", "the projection is skipped only for exactly SELECT *")
+	checkStarShortcut(c)
+}
+
+// checkStarShortcut (STAR): ParseSelect skips the projection (Map) node only for exactly `SELECT *`: one select item,
+// an unqualified star.  The condition guarding NewMap is evaluated over the eight combinations of (one item, first
+// item is a star, its qualifier is empty): the Map must be created in all but the (true, true, true) case.
+func checkStarShortcut(c *core.Ctx) {
+	p := c.Prog
+	fn := p.Func("parser", "ParseSelect")
+	key := "parser.ParseSelect/projection shortcut"
+	if fn == nil {
+		c.Unknown("STAR", key, 0, "anchor not found")
+		return
+	}
+	c.SawFunc("parser.ParseSelect")
+	info := fn.Info()
+	var guard *ast.IfStmt
+	ast.Inspect(fn.Decl.Body, func(n ast.Node) bool {
+		is, ok := n.(*ast.IfStmt)
+		if !ok {
+			return true
+		}
+		for _, s := range is.Body.List {
+			if as, ok := s.(*ast.AssignStmt); ok && len(as.Rhs) == 1 {
+				if call, ok := as.Rhs[0].(*ast.CallExpr); ok && p.CalleeName(info, call) == "logical.NewMap" {
+					guard = is
+				}
+			}
+		}
+		return true
+	})
+	if guard == nil {
+		c.Unknown("STAR", key, fn.Decl.Pos(), "no `if … { root = logical.NewMap(…) }` found")
+		return
+	}
+	table := ""
+	for a := 0; a < 2; a++ {
+		for b := 0; b < 2; b++ {
+			for q := 0; q < 2; q++ {
+				one, star, bare := a == 1, b == 1, q == 1
+				in := &absint.Interp{Info: info, Prog: p}
+				unknown := ""
+				in.Hooks.Cond = func(st *absint.State, atom string) (bool, bool) {
+					switch {
+					case strings.Contains(atom, "len(") && strings.Contains(atom, "1 =="), strings.Contains(atom, "len(") && strings.Contains(atom, "== 1"):
+						return one, true
+					case strings.Contains(atom, `"" ==`) || strings.Contains(atom, `== ""`):
+						return bare, true
+					case strings.HasSuffix(atom, "[0]") || strings.Contains(atom, "isStar"):
+						return star, true
+					}
+					unknown = atom
+					return false, true
+				}
+				res, err := in.RunCond(guard.Cond)
+				if err != nil || len(res) != 1 || unknown != "" {
+					c.Unknown("STAR", key, guard.Pos(), fmt.Sprintf("cannot evaluate the guard (%v, atom %q)", err, unknown))
+					return
+				}
+				if res[0].Value {
+					table += "1"
+				} else {
+					table += "0"
+				}
+			}
+		}
+	}
+	c.Decide(table == "11111110", "STAR", key, guard.Pos(), 8, "the projection is skipped only for a single unqualified star",
+		fmt.Sprintf("the Map node may be skipped only when the select list is exactly one unqualified `*`; over (one item, first is a star, qualifier empty) the guard creates the Map as %s, expected 11111110: with more items after a leading `*` the other columns are dropped", table))
 }
